@@ -109,6 +109,16 @@ func (sc *pubScn) c09Reported(a *pubActor, c *vfClient) {
 				return
 			}
 			// a subscriber without R is not told the topic's seq: only the order is checked then
+			_, told := d["seq"] // a subscriber without R is told neither the topic's seq nor any marks
+			if st := sc.c09st; st != nil && told && !a.chanSub && st.live[a.actingUser().uid] {
+				// "neither mark ever decreases ... in every place they are reported": what the subscriber is told
+				// must not be below what has been stored for this subscription already
+				r.Hit("reported_marks_not_below_stored")
+				if u := a.actingUser().uid; rd < st.read[u] || rc < st.recv[u] {
+					r.Violation("marks-decreased:reported:desc", fmt.Sprintf("{meta desc} for %s reports read=%d recv=%d, stored marks already reached read=%d recv=%d", a.role, rd, rc, st.read[u], st.recv[u]),
+						map[string]any{"script": sc.script, "frame": ans.Meta[0].Raw})
+				}
+			}
 			if rd < 0 || rd > rc || rc > seq || (sq != seq && sq != 0) {
 				r.Violation("marks-order:reported:desc", fmt.Sprintf("{meta desc} for %s: read=%d recv=%d seq=%d (stored seq %d)", a.role, rd, rc, sq, seq), map[string]any{"script": sc.script, "frame": ans.Meta[0].Raw})
 			}
@@ -226,6 +236,9 @@ func (sc *pubScn) noteStep(st *c09State, a *pubActor, c *vfClient, stepNo int) {
 				if cl == c && nf.Kind == "ctrl" && !attached {
 					continue // "attach first" answer to a note from a session which is not attached: no side effect
 				}
+				if nf.Kind == "pres" && nf.str("what") == "ua" {
+					continue // debounced user-agent announcement of an earlier attachment to 'me' (timer-driven), not an effect of the note
+				}
 				r.Violation("invalid-note-traffic:"+what+":"+nf.Kind, fmt.Sprintf("invalid note (%s seq=%d by %s) caused a {%s} frame at %s: %s", what, seq, a.role, nf.Kind, cl.name, nf.Raw), wit(nil))
 			}
 		}
@@ -295,6 +308,13 @@ func (sc *pubScn) noteStep(st *c09State, a *pubActor, c *vfClient, stepNo int) {
 				if nf.Kind == "info" && nf.str("topic") == rname {
 					infos = append(infos, nf)
 				}
+				// the copy relayed through the user's 'me' topic must not come back to the session which sent the note
+				if cl == c && nf.Kind == "info" && nf.str("topic") == "me" && nf.str("src") == rname && nf.str("from") == author.uid.UserId() {
+					infos = append(infos, nf)
+				}
+			}
+			if cl == c && sc.onMe {
+				r.Hit("origin_on_me_gets_no_copy")
 			}
 			if eligible {
 				// The property says whom a relayed notification may reach and what it must say, not that every
@@ -343,9 +363,23 @@ func c09Scenario(w *vfWorld, r *vfkit.R, idx int) {
 		return
 	}
 	rng := w.rng
+	if idx%2 == 1 {
+		// every session also listens on 'me', where notes are relayed to sessions which are not attached to the topic
+		for _, a := range sc.actors {
+			if a.role == "anon" {
+				continue
+			}
+			for _, c := range a.cs {
+				c.sub("me", nil)
+			}
+		}
+		w.e.vfQuiesce()
+		sc.onMe = true
+	}
 	st := &c09State{read: map[types.Uid]int{}, recv: map[types.Uid]int{}, live: map[types.Uid]bool{}, tainted: map[types.Uid]bool{}}
 	st.allowBeyond = idx%5 == 0
 	sc.tainted = st.tainted
+	sc.c09st = st
 	// some messages first
 	writers := []*pubActor{}
 	for _, a := range sc.actors {
@@ -455,6 +489,41 @@ func c09Scenario(w *vfWorld, r *vfkit.R, idx int) {
 				sc.noteStepFixed = &[2]any{what, seqNow}
 				sc.noteStep(st, pa, pa.cs[0], -2)
 				sc.noteStepFixed = nil
+			}
+			// everybody detaches, the topic is unloaded, the participant who unsubscribed subscribes again: the
+			// topic is loaded with one subscription re-created (zero marks) and the other one as stored. The
+			// other participant then attaches, asks for its marks and sends stale notes.
+			for _, a := range sc.actors {
+				for _, c := range a.cs {
+					if c.attachState()[sc.nameFor(a)] {
+						c.leave(sc.nameFor(a), false)
+					}
+				}
+			}
+			w.e.vfQuiesce()
+			if w.e.vfWaitUnloaded(sc.canon) {
+				f1 := pa.cs[0].sub(sc.nameFor(pa), nil)
+				w.e.vfQuiesce()
+				f2 := pb.cs[0].sub(sc.nameFor(pb), nil)
+				w.e.vfQuiesce()
+				sc.log("all left, topic unloaded, peerA subscribed again -> %s, peerB attached -> %s", codeStr(f1), codeStr(f2))
+				sc.c09CheckRows(st, "re-subscription after unload", "mutate")
+				rows, _, _ := sc.c09Rows()
+				if rb, ok := rows[pb.actingUser().uid]; ok && rb.DeletedAt == nil && rb.RecvSeqId > 1 && pb.cs[0].attachState()[sc.nameFor(pb)] {
+					r.Hit("p2p_reload_with_one_subscription_recreated")
+					sc.c09Reported(pb, pb.cs[0])
+					for _, n := range [][2]any{{"recv", rb.RecvSeqId - 1}, {"read", rb.ReadSeqId - 1}, {"recv", rb.RecvSeqId}} {
+						if n[1].(int) < 1 {
+							continue
+						}
+						sc.noteStepFixed = &[2]any{n[0], n[1]}
+						sc.noteStep(st, pb, pb.cs[0], -4)
+						sc.noteStepFixed = nil
+					}
+					sc.c09Reported(pa, pa.cs[0])
+				}
+			} else {
+				r.Inconclusive("c09: p2p topic not unloaded")
 			}
 		}
 	}
